@@ -6,6 +6,7 @@ mod crash;
 mod f3;
 mod fsm;
 mod img;
+mod migr;
 mod mutimg;
 mod partition;
 mod seq;
@@ -24,6 +25,8 @@ fn main() {
         "fs" => fsm::run(&opts),
         "img" => img::run(&opts),
         "codec" => codec::run(&opts),
+        "migchild" => migr::migchild(&opts),
+        "migrate" => migr::run(&opts),
         "cache" => cachem::run(&opts),
         "seq" => seq::run(&opts),
         "tracegen" => crash::tracegen(&opts),
